@@ -652,6 +652,19 @@ fn compile_contents_map(ctx: &Context, schemadict: IndexMap<&str, &Value>) -> Re
         }
         None => None,
     };
+    let dummy_pattern_properties = match schemadict.get("patternProperties") {
+        Some(pattern_properties) => {
+            let pattern_properties = pattern_properties
+                .as_object()
+                .ok_or_else(|| anyhow!("patternProperties must be an object"))?;
+            Some(Value::from_iter(
+                pattern_properties
+                    .iter()
+                    .map(|(k, _)| (k.as_str(), Value::Bool(true))),
+            ))
+        }
+        None => None,
+    };
     let dummy_prefix_items = match schemadict.get("prefixItems") {
         Some(prefix_items) => {
             let prefix_items = prefix_items
@@ -687,6 +700,12 @@ fn compile_contents_map(ctx: &Context, schemadict: IndexMap<&str, &Value>) -> Re
                 // (not the real deal, as we don't want to intersect it out of order)
                 if let Some(dummy_props) = &dummy_properties {
                     current.insert("properties", dummy_props);
+                }
+            }
+            if *k == "additionalProperties" && !current.contains_key("patternProperties") {
+                // ... and about patternProperties
+                if let Some(dummy_pattern_props) = &dummy_pattern_properties {
+                    current.insert("patternProperties", dummy_pattern_props);
                 }
             }
             if *k == "items" && !current.contains_key("prefixItems") {
